@@ -1133,3 +1133,18 @@ EXPLAIN['C06'] = ('E1: for every operation and path, an EUF query over two copie
 EXPLAIN['C09'] = ('E1: powi for listed exponents incl. +-2^30, powf with a symbolic real exponent on every '
                   'special-case path, powd, all against x^n (sympy) for all bases in the domain; E2 (Kani): all '
                   'i32 exponents |n| <= 2^30 for the integer coefficient arithmetic')
+
+
+def c13(run):
+    from . import kani_run
+    kani_run.run_group(run, 'C13')
+    run.bounds = {'types': 'Dual, Dual2, DualVec<2> static and dynamic, Dual2Vec<2>; (f32,f64) pairs',
+                  'values': 'all bit patterns (NaN, +-0, subnormal, infinities included)',
+                  'outside': 'dimensions > 2; leak freedom (no leak checker reachable through Kani); '
+                             'nalgebra::convert on matrices is exercised for SVector<_,2> only'}
+
+
+EXPLAIN['C13'] = ('Kani/CBMC harnesses on the compiled f32/f64 instantiations with fully symbolic bit patterns and '
+                  'presence flags: widening preserves bits, narrowing back is the identity, checked narrowing '
+                  'succeeds iff is_in_subset for every presence pattern, float lift/extract; Kani\'s pointer, '
+                  'bounds and initialisation-related checks cover the MaybeUninit mapping loops')
